@@ -5,8 +5,9 @@
    Bulker.run submits the elements, in order, to a pond pool of [parallelism] workers (1 unless parallel=true); a task
    first tests `hasError.Load() && !continueOnFailure` (=> result {Error: context.Canceled}, element NOT processed), else
    processes the element, stores hasError on failure and sends its BulkElementResult on the channel.  Results therefore
-   arrive in COMPLETION order.  BulkElementResult.ElementID is never assigned (always 0); writeJSONResponse sorts the
-   results by ElementID (all keys equal: the order is kept, see DESIGN S-32) and pairs the i-th result with the i-th
+   arrive in COMPLETION order, each carrying ElementID = the submission index of its element (since the repair of finding
+   KF-C32-parallel-attribution; before it ElementID was never assigned); writeJSONResponse sorts the results by ElementID
+   (distinct keys: the outcome does not depend on the sorting algorithm) and pairs the i-th sorted result with the i-th
    element's action.
    Run: atomic => BeginTX first, Rollback when any element failed, Commit otherwise (atomic && parallel is rejected). *)
 From Coq Require Import List Bool Arith.
@@ -37,7 +38,7 @@ Section Bulk.
 
   (* parallel = true: a schedule lists, in completion order, the index of the element and whether its task made the
      hasError test AFTER all earlier completions ([late]); executions are serialised in that order (the serialisable
-     interleavings).  Results are tagged with the element index for the specification only: the code has no such tag. *)
+     interleavings).  Results are tagged with the element index (ElementID). *)
   Fixpoint run_sched (cont : bool) (es : list elem) (s : state) (err : bool) (sched : list (nat * bool)) : state * list (nat * res) * bool :=
     match sched with
     | [] => (s, [], err)
@@ -53,10 +54,21 @@ Section Bulk.
       end
     end.
 
-  (* writeJSONResponse: stable order (all ElementIDs are 0), i-th result paired with i-th action; "ERROR" replaces the
-     action as responseType when the result is an error *)
-  Definition respond {A} (actions : list A) (rs : list res) : list (option A * res) :=
-    map (fun ar => (if is_ok (snd ar) then Some (fst ar) else None, snd ar)) (combine actions rs).
+  (* the sequential run tags result i with i *)
+  Definition tag_seq (rs : list res) : list (nat * res) := combine (seq 0 (length rs)) rs.
+
+  (* slices.SortFunc by ElementID, as an insertion sort (keys are distinct, any sorting algorithm gives this list) *)
+  Fixpoint ins_by_id (x : nat * res) (l : list (nat * res)) : list (nat * res) :=
+    match l with
+    | [] => [x]
+    | y :: r => if fst x <=? fst y then x :: l else y :: ins_by_id x r
+    end.
+  Definition sort_by_id (l : list (nat * res)) : list (nat * res) := fold_right ins_by_id [] l.
+
+  (* writeJSONResponse: sort by ElementID, i-th result paired with i-th action; "ERROR" replaces the action as
+     responseType when the result is an error *)
+  Definition respond {A} (actions : list A) (tagged : list (nat * res)) : list (option A * res) :=
+    map (fun ar => (if is_ok (snd ar) then Some (fst ar) else None, snd ar)) (combine actions (map snd (sort_by_id tagged))).
 
   (* ---------- specification vocabulary ---------- *)
   Definition exec_all (s : state) (es : list elem) : state := fold_left (fun s e => fst (exec s e)) es s.
